@@ -75,6 +75,7 @@ type Frame struct {
 	idx      int
 	defers   []deferRec
 	retTo    ssa.Value // register in the caller frame receiving the result; nil for deferred/go
+	loopEntry map[*ssa.BasicBlock]*State // per loop header: the state in which the loop was entered (for entry(...) in invariants)
 	onReturn func(vc *VC, st *State, res []Value) []Value // post-processing of an inlined frame's results (transaction commit/rollback)
 	cut      map[*ssa.BasicBlock]bool
 	iters    map[ssa.Value]*iterState
@@ -92,6 +93,12 @@ func (f *Frame) clone() *Frame {
 		g.regs[k] = v
 	}
 	g.defers = append([]deferRec{}, f.defers...)
+	if f.loopEntry != nil {
+		g.loopEntry = make(map[*ssa.BasicBlock]*State, len(f.loopEntry))
+		for k, v := range f.loopEntry {
+			g.loopEntry[k] = v
+		}
+	}
 	g.cut = make(map[*ssa.BasicBlock]bool, len(f.cut))
 	for k, v := range f.cut {
 		g.cut[k] = v
@@ -257,7 +264,9 @@ type VC struct {
 	entry       *State
 	params      map[string]SV
 	curIns      ssa.Instruction
+	defs        map[string]string // named heap terms (define-fun name -> body)
 	iterPid     map[string]int // database iterator (term) -> key space it walks
+	iterSeekState map[string]string // database iterator (term) -> fingerprint of the database heaps at its Seek
 	groupKey    string
 	groupPrefix string
 	valueNames  []string
@@ -337,6 +346,10 @@ func (vc *VC) setHeap(st *State, name string, t *Term) {
 		vc.nfresh++
 		dn := fmt.Sprintf("%s_d%d", smtName(name), vc.nfresh)
 		st.pc = append(st.pc, fmt.Sprintf("(define-fun %s () %s %s)", dn, t.Sort.Name, t.S))
+		if vc.defs == nil {
+			vc.defs = map[string]string{}
+		}
+		vc.defs[dn] = t.S
 		t = T(t.Sort, dn)
 	}
 	st.heaps[name] = t
@@ -386,6 +399,7 @@ func (vc *VC) newRef(st *State, hint string) *Term {
 	r := vc.fresh(hint, sortInt)
 	st.assume(Bin(sortBool, ">", r, st.alloc))
 	st.alloc = r
+	allocRefs.Store(r.S, true)
 	return r
 }
 
@@ -614,4 +628,25 @@ func sortedKeys(m map[string]bool) []string {
 
 func (o *Obligation) fileBase() string {
 	return fmt.Sprintf("%s_p%d_%d", o.Name, o.Path, o.Seq)
+}
+
+// unfoldSelect: "(select NAME i)" with NAME a named heap term is simplified through the definition (store chains over
+// distinct allocation references), as far as that is syntactically possible.
+func (vc *VC) unfoldSelect(t *Term) *Term {
+	for k := 0; k < 32; k++ {
+		a, ok := ctorArgs(t.S, "select")
+		if !ok || len(a) != 2 {
+			return t
+		}
+		body, isDef := vc.defs[a[0]]
+		if !isDef {
+			return t
+		}
+		n := Select(T(nil, body), T(sortInt, a[1]), t.Sort)
+		if n.S == t.S {
+			return t
+		}
+		t = n
+	}
+	return t
 }
